@@ -15,4 +15,9 @@ TwoVars == {[kind |-> kd, vars |-> [n \in {"t", "u"} |-> IF n = "t" THEN d1 ELSE
              kd \in Kinds, d1 \in Domains, d2 \in Domains, m \in {"comb", "bp"}, b \in BOOLEAN,
              e \in {"t+u", "t*u", "u-t"}, bp \in {"config", "default"}}
 AllSpecs == OneVar \cup TwoVars
+SmallDomains == {Seq_(<<1, 2>>), Seq_(<<3>>), Lin(0, 6, 3, FALSE), Ctx("s")}
+ThreeVars == {[kind |-> kd, vars |-> [n \in {"t", "u", "v"} |-> IF n = "t" THEN d1 ELSE IF n = "u" THEN d2 ELSE d3],
+               mode |-> m, bc |-> b, expr |-> e, bplace |-> bp] :
+             kd \in Kinds, d1 \in SmallDomains, d2 \in SmallDomains, d3 \in SmallDomains, m \in {"comb", "bp"}, b \in BOOLEAN,
+             e \in {"t+u+v", "t*u-v"}, bp \in {"context", "default"}}
 =============================================================================
